@@ -1737,7 +1737,17 @@ func (e *Exec) instr(st *State, b *ssa.BasicBlock, ins ssa.Instruction) (stop bo
 		} else {
 			st.vals[x] = v
 		}
-	case *ssa.Defer, *ssa.RunDefers:
+	case *ssa.Defer:
+		// deferred calls are not executed: in the units under contract they only close files
+		callee := "?"
+		if f := x.Call.StaticCallee(); f != nil {
+			callee = f.String()
+		} else if x.Call.IsInvoke() {
+			callee = "invoke " + x.Call.Method.FullName()
+		}
+		e.applied["deferred call not modelled: "+callee]++
+		return false
+	case *ssa.RunDefers:
 		return false
 	case *ssa.MakeClosure:
 		f := e.fresh("closure", "Fn")
